@@ -57,8 +57,13 @@ LEVEL_TEXT = ("Theorems (Coq, over the reals, every valid table N >= 3, every pr
               "Programs with several objects: the classes have value semantics, modelled by a store of objects (lstep); theorems: a copy (copy construction / assignment, by-value parameter, vector element) or a moved object keeps the table and prefactor of its source through every later operation on other objects, re-assignment or destruction of the source included; that the C++ objects behave like this store is tied by correspondence and S4 (sessions). "
               "Long tables: the loops of Integrate and Local_Minimum/Maximum can be cut after any number of steps and resumed with the running value (theorems, any NumOps instance); tables of 10^2..10^5 points are run through the extracted functions window by window, "
               "with the remarkable ordinate placed at the first / last abscissa inside the limits and with blocks of ordinates 2^10..2^300 times larger elsewhere in the table. "
+              "Seventh pass: the public member domain and operator() (1-D and 2-D) are in the model and compared on every run (ops O, C); after any prefactor history domain is {x_0, x_{N-1}} resp. {{x_0,x_last},{y_0,y_last}} (C08_domain_member) and EVERY call of operator()/Interpolate with arguments inside domain -- whichever interval or cell they fall into -- lies between Global_Minimum and Global_Maximum (C08_global_bounds_whole_domain, C08_global_bounds_whole_domain_2d); "
+              "Derivative of every order scales with the prefactor exactly as Interpolate does at every accepted point (C08_derivative_prefactor); "
+              "the 2-D data-table constructor returns an object ONLY for the x-major listing of a rectangular table over strictly increasing axes, and then the object of the list constructor (C08_table_constructor_accepts_only_listings, converse of C08_table_constructor_grid), its size check and its wrong-node check terminate the process for any number type (C08_table_constructor_error_branches); "
+              "floating point: for any number type with totally ordered comparisons and multiplication by a fixed factor monotone (explicit premise, true of IEEE multiplication without NaN), prefactor*f lies between Global_Minimum and Global_Maximum for EVERY table entry f, 1-D and 2-D (C08_global_bounds_every_entry_fp). "
+              "Exactly which code is modelled line by line, by specification, or not at all: coverage/C08.md. "
               "REFUTED for the model (theorem C08_global_bound_accepted_points_refuted, witness replayed on the library on every run, corpus/C08/refuted.case): that Global_Minimum bounds EVERY accepted evaluation -- on the straight-line table 0,1,2 -> 0,1,2 Interpolate(-1/200) = -1/200 < 0 = Global_Minimum (known finding K-C08-1). "
-              "Not a theorem: the analogous failure of Local_Minimum/Maximum in the zone (K-C08-1, witness replayed on every run, no refutation theorem); the 1-D data-table constructor is tied to the list constructor by the theorems of C01 (construct_rows_complete), the other error branches of the 2-D data-table constructor (size mismatch, rows out of order) by correspondence and S4 only; "
+              "Not a theorem: the analogous failure of Local_Minimum/Maximum in the zone (K-C08-1, witness replayed on every run, no refutation theorem); the 1-D data-table constructor is tied to the list constructor by the theorems of C01 (construct_rows_complete), that the 2-D data-table constructor ends in the diagnostic exit (rather than an out-of-range read) on EVERY table that is not a listing is shown by correspondence and S4 only (the theorems give: never an object; exit on the size check and on a wrong node); Save_Function is outside this slice (C09); "
               "rounding of the arithmetic in Interpolate and Integrate (the integrals are compared with quadrature within the a-priori slack).")
 LEVEL_NOTE = ("Coq 8.16.1 kernel; theorems over R use the standard library's real-number axioms and Coquelicot; hand-written model tied by differential "
               "correspondence (extraction with ExtrOcamlBasic only); std::min_element/max_element modelled as first smallest / first largest by a fold")
@@ -70,6 +75,7 @@ TRUSTED = ["std::min_element / std::max_element are modelled by a left fold keep
            "the model answers every query from the search state of a fresh object (the search state machine is property C09); the harness asks copies (t1, d1, t0, t2, d2, z2) or the one live object (h1, e1, h0, h2)"]
 ASSUMPTIONS = ["the extremum theorems (bounds of the curve, bounded integral, nesting, scaling) assume limits inside [x_0, x_{N-1}]; the integral theorems hold for every accepted limit, the 1 % extrapolation zone included",
                "C08_local_minimum_select / C08_local_maximum_select / C08_global_extrema_select assume OrdLaws (comparisons form a total order: no NaN among the values compared)",
+               "C08_global_bounds_every_entry_fp assumes OrdLaws and monotone multiplication by a fixed factor (an explicit hypothesis of the theorem, satisfiable: ROps_mul_monotone)",
                "C08_table_constructor_grid: the data table lists a valid grid (strictly increasing axes, at least 2 x 2) in x-major order, over the reals (std::sort / std::unique by specification)"]
 
 NS = 48   # dense sampling of an extremum query
@@ -156,6 +162,10 @@ def query_ops(rng, xs, nq):
         elif r < 0.94: ops.append(f"Z {NS}")
         else:
             ops += [f"m {hx(a)} {hx(b)}", f"M {hx(a)} {hx(b)}", f"N {hx(a)} {hx(b)}", "g", "G", f"I {hx(a)}", f"D 1 {hx(b)}"]
+    # operator() next to Interpolate (at a limit: knots, interior points, zone points) and the public member domain
+    if rng.random() < 0.5:
+        a, b, _k = pick_limits(rng, xs); ops.append(f"C {hx(rng.choice([a, b, xs[0], xs[-1]]))}")
+    if rng.random() < 0.35: ops.append("O")
     return ops
 
 
@@ -526,7 +536,7 @@ def generate(rng, tier):
         else:
             ops = []
             for _blk in range(rng.choice([1, 2])):
-                ops += pref_ops(rng) + [f"Z {rng.choice([2, 4])}", "g", "G", f"I {hx(rng.uniform(-1, 1))} {hx(rng.uniform(-1, 1))}"]
+                ops += pref_ops(rng) + [f"Z {rng.choice([2, 4])}", "g", "G", f"I {hx(rng.uniform(-1, 1))} {hx(rng.uniform(-1, 1))}", f"C {hx(rng.choice([-1.0, 0.0, 1.0, rng.uniform(-1, 1)]))} {hx(rng.uniform(-1, 1))}", "O"]
             cs.append(Case(f"z2 {len(ops)} " + " ".join(ops), ("2d", "ctor:default")))
     # tables aimed at the extrapolation zone
     for _ in range(1500 if big else 120):
@@ -596,6 +606,8 @@ def generate(rng, tier):
             ops.append(f"Z {rng.choice([4, 9])}"); ops += ["g", "G"]
             x = sx[0] + (sx[-1] - sx[0]) * rng.random(); y = sy[0] + (sy[-1] - sy[0]) * rng.random()
             if sx[0] <= x <= sx[-1] and sy[0] <= y <= sy[-1]: ops.append(f"I {hx(x)} {hx(y)}")
+            if rng.random() < 0.5: ops.append(f"C {hx(rng.choice([x, sx[0], sx[-1], rng.choice(sx)]) if sx[0] <= x <= sx[-1] else sx[0])} {hx(rng.choice([y, sy[0], sy[-1], rng.choice(sy)]) if sy[0] <= y <= sy[-1] else sy[0])}")
+            if rng.random() < 0.35: ops.append("O")
         ln, ct = line2(rng, xd, yd, fd, xs, ys, f, ops)
         cs.append(Case(ln, ("2d", "f:" + fm, ct)))
     # malformed data tables (guards of the two data-table constructors)
@@ -653,7 +665,8 @@ def read_ops(r, n, two_d):
         elif q == "I": ops.append((q, r.num()) if not two_d else (q, r.num(), r.num()))
         elif q == "D": ops.append((q, r.integer(), r.num()))
         elif q in ("N", "m", "M", "Q", "B", "W"): ops.append((q, r.num(), r.num()))
-        elif q in ("g", "G"): ops.append((q,))
+        elif q in ("g", "G", "O"): ops.append((q,))
+        elif q == "C": ops.append((q, r.num()) if not two_d else (q, r.num(), r.num()))
         elif q == "E": ops.append((q, r.num(), r.num(), r.integer()))
         elif q == "Z": ops.append((q, r.integer()))
         elif q in ("A", "U"): ops.append((q, r.num(), r.num(), r.num()))
@@ -787,6 +800,8 @@ def nout(q, xs=None, two_d=False):
     o = q[0]
     if o in ("P", "X"): return 0
     if o in ("I", "D", "N", "m", "M", "g", "G"): return 1
+    if o == "C": return 2
+    if o == "O": return 4 if two_d else 2
     if o == "E": return q[3] + 3
     if o == "Z": return 2 + ((q[1] + 1) ** 2 + 1 if two_d else q[1] + 3)
     if o == "Q": return 2 + 3 * len(pieces(xs, q[1], q[2]))
@@ -796,7 +811,7 @@ def nout(q, xs=None, two_d=False):
 
 def query_points(q):
     o = q[0]
-    if o == "I": return [q[1]]
+    if o in ("I", "C"): return [q[1]]
     if o == "D": return [q[2]]
     if o in ("N", "m", "M", "Q", "B", "E", "W"): return [q[1], q[2]]
     if o == "A": return [q[1], q[2], q[3]]
@@ -868,6 +883,8 @@ def walk(d):
         n = nout(q, xs)
         if o in ("P", "X"): sc = []
         elif o == "I": sc = [vs(q[1])]
+        elif o == "C": sc = [vs(q[1])] * 2
+        elif o == "O": sc = [0.0] * 2
         elif o == "D":
             j = locate_ref(xs, q[2]); k = q[1]
             sc = [0.0] if j is None or k > 3 else [abs(c) * [abs(ys[j]) + abs(ys[j + 1]), 40 * abs(s[j]), 54 * abs(s[j]) / h[j], 36 * abs(s[j]) / h[j] ** 2][k]]
@@ -971,6 +988,10 @@ def pred_1d(c, d, vals):
                 sl = 2 * vslack(x, cc)
                 if v < gmn - sl or v > gmx + sl:
                     out.append(("Z:sample-outside-global-zone", f"Interpolate({x!r}) = {v!r}, accepted inside the 1 % extrapolation tolerance, lies outside [Global_Minimum, Global_Maximum] = [{gmn!r},{gmx!r}] (prefactor {cc!r})")); break
+        elif op == "C":
+            if o[0] != o[1]: out.append(("C:call-operator", f"operator()({q[1]!r}) = {o[0]!r} but Interpolate({q[1]!r}) = {o[1]!r} (prefactor {cc!r})"))
+        elif op == "O":
+            if list(o) != [xs[0], xs[-1]]: out.append(("O:domain", f"the member domain is {list(o)!r}; the table runs from {xs[0]!r} to {xs[-1]!r}"))
         elif op in ("g", "G"):
             ref = min(cc * min(ys), cc * max(ys)) if op == "g" else max(cc * min(ys), cc * max(ys))
             if o[0] != ref: out.append((op + ":global-reference", f"Global_{'Min' if op == 'g' else 'Max'}imum = {o[0]!r} under prefactor {cc!r}; reference {ref!r}"))
@@ -1030,6 +1051,10 @@ def pred_2d(c, d, vals):
             for v in o[2:-1]:
                 if not (o[0] - sl <= v <= o[1] + sl): out.append(("2d:sample-outside-global", f"an evaluation {v!r} lies outside [Global_Minimum, Global_Maximum] = [{o[0]!r},{o[1]!r}] (prefactor {cc!r})")); break
             if not (o[0] - sl <= o[-1] <= o[1] + sl): out.append(("2d:sample-outside-global-zone", f"an evaluation {o[-1]!r} accepted inside the 1 % extrapolation tolerance lies outside [Global_Minimum, Global_Maximum] = [{o[0]!r},{o[1]!r}] (prefactor {cc!r})"))
+        if q[0] == "C" and o[0] != o[1]: out.append(("2d:call-operator", f"operator()({q[1]!r},{q[2]!r}) = {o[0]!r} but Interpolate = {o[1]!r} (prefactor {cc!r})"))
+        if q[0] == "O":
+            xa, ya = scaled(d["xd"], d["xs0"]), scaled(d["yd"], d["ys0"])
+            if list(o) != [xa[0], xa[-1], ya[0], ya[-1]]: out.append(("2d:domain", f"the member domain is {list(o)!r}; the grid runs over [{xa[0]!r},{xa[-1]!r}] x [{ya[0]!r},{ya[-1]!r}]"))
         if q[0] == "I":
             sl = slack2(cc)
             if not (lo - sl <= o[0] <= hi + sl): out.append(("2d:sample-outside-global", f"Interpolate({q[1]!r},{q[2]!r}) = {o[0]!r} lies outside the global range [{lo!r},{hi!r}]"))
